@@ -2367,6 +2367,13 @@ class MovieExtendsHeaderBox(FullBox):
 
 @fourcc('saiz')
 class SampleAuxiliaryInformationSizesBox(FullBox):
+    def __init__(self, **kwargs):
+        super().__init__(**kwargs)
+        # the JSON form shows aux_info_type as a hexadecimal string
+        aux = self.__dict__.get('aux_info_type')
+        if isinstance(aux, str):
+            object.__setattr__(self, 'aux_info_type', int(aux, 16))
+
     @classmethod
     def parse(clz, src, parent, **kwargs):
         rv = FullBox.parse(src, parent, **kwargs)
@@ -2597,6 +2604,13 @@ class ProtectionSchemeTypeBox(FullBox):
 @fourcc('saio')
 class SampleAuxiliaryInformationOffsetsBox(FullBox):
     DEPENDS_UPON = {'moof', 'senc', 'tfhd'}
+
+    def __init__(self, **kwargs):
+        super().__init__(**kwargs)
+        # the JSON form shows aux_info_type as a hexadecimal string
+        aux = self.__dict__.get('aux_info_type')
+        if isinstance(aux, str):
+            object.__setattr__(self, 'aux_info_type', int(aux, 16))
 
     @classmethod
     def parse(clz, src, parent, **kwargs):
